@@ -10,6 +10,7 @@ META = {
         "(2) who may inject: every ptrace resume carrying a signal is one of the enumerated sinks (queue pop in resume -> cont_stopped_ex; the re-issued single step for a quiet signal, which must first take the signal out of the injection queue; the two thin wrappers; the SIGSTOP used by teardown) — any other site is a second delivery path; "
         "(3) queue discipline: the only push is in apply_new_status and is guarded by the transparent-signal test; every pop_front is followed by cont_stopped_ex(Some(that request)) on all normal paths; a quiet signal stop in resume loops back to the injection; "
         "(4) the signal reported in StopReason::SignalStop is the one received, the receiving thread is marked signal-stopped, and non-quiet signals group-stop before being reported."
+        " Also: the exclude set of cont_stopped_ex covers every still-queued thread and is honoured."
     ),
     "not_decided": "kernel delivery, timing, behaviour for bursts of signals in multi-threaded programs at runtime",
     "assumptions": ["ptrace(PTRACE_CONT/SINGLESTEP, sig) delivers sig exactly once; sig=0 suppresses the pending signal"],
